@@ -217,6 +217,16 @@ type World struct {
 	BadEnt   bool         `json:"badent,omitempty"`
 	CRLF     bool         `json:"crlf,omitempty"`
 	WxFault  *WxFault     `json:"wxfault,omitempty"`
+	// CropAlias renames crops of the rotation to user-defined crop codes (base code -> custom code); the parameter
+	// folder of the scenario gets copies of the base crop's files and table lines under the custom code.
+	CropAlias map[string]string `json:"cropalias,omitempty"`
+}
+
+func (w *World) cropCode(c string) string {
+	if a, ok := w.CropAlias[c]; ok {
+		return a
+	}
+	return c
 }
 
 // WxFault is an input fault on the weather series (C04, C11).
